@@ -429,7 +429,7 @@ def run(ctx) -> None:
     ctx.guard_as("R08.10", r04_4)
     from .c20 import r20_2
     from ..effects import Effects
-    ctx.guard_as("R08.11", r20_2, Effects(ctx.eng.prog, ctx.eng.cg))  # the per-algorithm parameters (name, hash, key size) are those of the model in use: models keep no state  # the JOSE header of a recipient is the union of protected, shared unprotected and per-recipient members
+    ctx.guard_as("R08.11", r20_2, Effects(ctx.eng.prog, ctx.eng.cg), "jwe")  # the per-algorithm parameters (name, hash, key size) are those of the model in use: models keep no state  # the JOSE header of a recipient is the union of protected, shared unprotected and per-recipient members
     from .c19 import r19_4_5
     ctx.guard_as("R08.13", r19_4_5)
     from .c17 import r17_1, r17_2_5
